@@ -34,6 +34,25 @@ CLAIMED = {
        "under C10). Enumerated (not unbounded): batch rank <= 1 for indexing and <= 2 elsewhere, <= 3 for from_batch_mvn, 2-3 tasks for "
        "from_independent_mvns, index-kind tuples. Bounded tier (real objects vs dense oracle) is reported separately and not counted.",
   technique="contract-based deductive verification: AST-extracted real functions, symbolic execution with an elementwise tensor domain, z3 (qfnia tactic / cvc5 on unknowns)"),
+ "C17": dict(
+  category="other",
+  text="Proof tier (contract-based deductive verification, counted): for all four constraint classes the real __init__/transform/"
+       "inverse_transform are executed symbolically with symbolic finite bounds and raw values (scalar and tensor-valued, any extent) and "
+       "z3 discharges closed-interval containment, strict monotonicity and the constructor invariant; the two inverse identities are "
+       "discharged over the extracted inv_sigmoid / inv_softplus bodies with sigmoid/softplus defined through exp/log (z3 first, sympy CAS "
+       "back end for the transcendental identities, cross-checked numerically). Every register_constraint site found in gpytorch/ on this "
+       "run (30 on the pinned tree) x 4 constraint kinds: getter = constraint.transform(raw) (hence inside the bounds after any history), "
+       "public setter reads back the value, writes only the raw parameter and keeps the parameter cell, verified modularly against the "
+       "constraint contracts and the real Module.initialize; every register_prior closure pair reads / stores the constrained value; "
+       "SmoothedBoxPrior and HorseshoePrior log densities equal the documented formulas per batch element. Bounded tier (not counted): "
+       "float32/float64 saturation over the whole finite range, setter round trips across magnitudes on real modules, rejection of "
+       "out-of-bounds values, reference densities (scipy), normalisation by numerical integration.",
+  design_ref="DESIGN.md section 5, C17",
+  note="Floats are read as reals in the proof tier (overflow/saturation only in the bounded tier); exp/log axioms are ground instances "
+       "listed in the evidence; sympy's simplifier is trusted for the four inverse identities; NaN-based rejection of out-of-bounds "
+       "assignments is checked in the bounded tier only; torch-backed priors delegate to torch.distributions (assumed); LKJ priors are "
+       "covered by the bounded tier only.",
+  technique="contract-based deductive verification: AST-extracted real functions, symbolic execution, modular callee contracts, z3 + sympy CAS for exp/log identities"),
 }
 REASON_NOT_BUILT = "contracts for this property are not built yet in this revision (see DESIGN.md section 9 build order); not claimed until its obligations are discharged by the checker"
 
